@@ -405,7 +405,10 @@ func (c *channel) processCommand(ctx context.Context, sender RequestCommandSende
 	defer func() {
 		verifHook("pc.cleanup", c.transport, reqCmd)
 		c.processingCmdsMu.Lock()
-		delete(c.processingCmds, reqCmd.ID)
+		// Remove only the entry of this call, since the id may be already in use by a newer command
+		if c.processingCmds[reqCmd.ID] == respChan {
+			delete(c.processingCmds, reqCmd.ID)
+		}
 		c.processingCmdsMu.Unlock()
 		verifHook("pc.cleaned", c.transport, reqCmd)
 	}()
